@@ -3,11 +3,12 @@ import TTV.Model.Spinner
 import TTV.Spec.C15
 /-! Driver glue for C15: codecs between S-expressions and `Spinner.Input` / `Spinner.Trace`.
 
-Input : `(debug (step …))`, step = `(run T ((d act) …) (op …) term)` | `clear`,
+Input : `(debug (step …))`, step = `(run T ((d act) …) (op …) term)` | `clear` | `(setsig s h)`, T = n | `neg` (a timeout
+        the reactor rejects),
         op = `(later d act)` | `(now act)`, term = `(ret v)` | `(raise e)` | `deferred`,
         act = `(fire v)` | `(fail e)` | `stop` | `noop` | `addsel` | `(setsig s h)` | `(reenter T|F)`
 Trace : `(obs …)`, obs = `(run result ((t lbl) …) (result …) (junk …) pending sels running stopRestored (sig …) (sig …) elapsed)`
-        | `(cleared (junk …))`, lbl = n | `timeout`, junk = `(call lbl)` | `(sel n)` -/
+        | `(cleared (junk …))` | `(sigs (sig …))`, lbl = n | `timeout`, junk = `(call lbl)` | `(sel n)` -/
 namespace TTV.Drv.C15
 open TTV TTV.Sexp TTV.Reactor TTV.Spinner
 
@@ -33,9 +34,12 @@ def term? : Sexp → Option Term
   | _ => none
 
 def step? : Sexp → Option Step
+  | .list [.atom "run", .atom "neg", pre, body, term] => do
+      some (.run { timeout := 0, bad := true, pre := ← list? (pair? nat? act?) pre, body := ← list? op? body, term := ← term? term })
   | .list [.atom "run", t, pre, body, term] => do
       some (.run { timeout := ← nat? t, pre := ← list? (pair? nat? act?) pre, body := ← list? op? body, term := ← term? term })
   | .atom "clear" => some .clearJunk
+  | .list [.atom "setsig", s, h] => do some (.setSig (← nat? s) (← nat? h))
   | _ => none
 
 /-- an optional third element says on which reactor the harness ran the history (`real`); the model is the same -/
@@ -51,6 +55,7 @@ def res? : Sexp → Option Res
   | .atom "noresult" => some .noresult
   | .atom "reentry" => some .reentry
   | .atom "stalejunk" => some .stalejunk
+  | .atom "rejected" => some .rejected
   | _ => none
 def ofRes : Res → Sexp
   | .value v => tag "value" [ofNat v]
@@ -59,6 +64,7 @@ def ofRes : Res → Sexp
   | .noresult => .atom "noresult"
   | .reentry => .atom "reentry"
   | .stalejunk => .atom "stalejunk"
+  | .rejected => .atom "rejected"
 
 def lbl? : Sexp → Option Lbl
   | .atom "timeout" => some .timeout
@@ -82,12 +88,14 @@ def obs? : Sexp → Option Obs
                    stopRestored := ← bool? sr, sigBefore := ← list? nat? sb, sigAfter := ← list? nat? sa,
                    elapsed := ← nat? el })
   | .list [.atom "cleared", j] => (list? junk? j).map .cleared
+  | .list [.atom "sigs", l] => (list? nat? l).map .sigs
   | _ => none
 def ofObs : Obs → Sexp
   | .run o => tag "run" [ofRes o.result, ofList (ofPair ofNat ofLbl) o.events, ofList ofRes o.reentries,
                          ofList ofJunk o.junk, ofNat o.pending, ofNat o.sels, ofBool o.running, ofBool o.stopRestored,
                          ofList ofNat o.sigBefore, ofList ofNat o.sigAfter, ofNat o.elapsed]
   | .cleared j => tag "cleared" [ofList ofJunk j]
+  | .sigs l => tag "sigs" [ofList ofNat l]
 
 def drv : PropDrv Input Trace :=
   { decI := input?, decT := list? obs?, encT := ofList ofObs, model := model, clauses := Spec.C15.clauses }
